@@ -37,7 +37,8 @@ class C14(Check):
                  'out = always[0:1] xa unless[1,2] xb;', 'out = xa unless xb;', 'out = xa unless[2,1] xb;', 'out = pow(xa, 2) >= log(xb, 2);', 'out = pow(xa) >= 1;',
                  'out = xa >= 1 out = xb;', 'out = = xa;', 'out == xa;', 'out = a/b >= 1;', 'out = xa/xb >= 1;', 'out = xa / xb >= 1;', 'out = xa//xb >= 1;',
                  'out = xa.f >= 1;', 'out = 1 >= .5e1;', 'out = always [0,1] [0,1] xa;', 'out = always[0,1 xa;', 'out = always[0;1] xa;', 'out = always[-1,1] xa;',
-                 'out = G[0,1] F[0:2] xa -> H O xb;', 'out = next[0,1] xa;', 'out = not[0,1] xa;', 'out = xa and[0,1] xb;', 'out = xa S[0,1] xb U[1,1] xa W[0,2] xb;']
+                 'out = G[0,1] F[0:2] xa -> H O xb;', 'out = always[500ms:2] xa;', 'out = once[3ms:1] xa;', 'out = always[1s:500] xa;', 'out = always[2:500ms] xa;', 'out = always[1:2000ms] xa;',
+                 'out = xa since[700us:5] xb;', 'out = xa unless[1000ms:3000ms] xb;', 'out = xa until[1:3s] xb;', 'out = next[0,1] xa;', 'out = not[0,1] xa;', 'out = xa and[0,1] xb;', 'out = xa S[0,1] xb U[1,1] xa W[0,2] xb;']
         for t in fixed:
             cases.append({'text': t, 'stream': 'fixed'})
         valid = []
@@ -47,7 +48,7 @@ class C14(Check):
             f = add_unless(rng, g.formula(rng.choice([1, 2, 3, 3])))
             if fml.size(f) > 25:
                 continue
-            r = text.Renderer(rng, style=rng.choice(['min', 'full', 'extra']))
+            r = text.Renderer(rng, style=rng.choice(['min', 'full', 'extra']), units=(rng.random() < 0.4))
             t = r.text(f, head=rng.random() < 0.8, semi=rng.random() < 0.8)
             valid.append(r.toks(f))
             cases.append({'text': t, 'stream': 'valid'})
